@@ -36,6 +36,7 @@ def run(prog, tier):
             "inspect.isgenerator is true only for generator objects (not for tuple / range / list)")
     table = builder_table(prog)
     check_thresholds(R, prog, table)
+    check_builder_paths(R, prog, table)
     check_add_linear(R, prog)
     check_normalize(R, prog)
     check_parity(R, prog)
@@ -137,6 +138,38 @@ def check_thresholds(R, prog, table):
 
 
 # ------------------------------------------------------------------ add_linear
+def check_builder_paths(R, prog, table):
+    """BUILDER-PATH: a named builder states its constraint on every path and states nothing else: the extracted emitter call is on
+    every path from entry to a normal exit, and it is the only call of an emitter of the formula in the method.  (A shortcut that
+    handles some lengths / values by another constraint escapes the threshold comparison, which looks at the one call.)"""
+    emit = {"add_clause", "add_linear", "add_constraint", "add_clauses_from", "add_constraints_from", "add_parity"} | set(NAMED)
+    n = 0
+    for (kind, name), b in sorted(table.items()):
+        if b is None:
+            continue
+        n += 1
+        fi = b.fi
+        cfg = CFG(fi.node)
+        stmt = None
+        for st in stmts_in(fi.node):
+            if any(x is b.call for x in ast.walk(st)) and not isinstance(st, (ast.If, ast.For, ast.While, ast.Try, ast.With)):
+                stmt = st
+        node = cfg.node_of(stmt) if stmt is not None else None
+        others = [c for c in walk_shallow(fi.node) if isinstance(c, ast.Call) and isinstance(c.func, ast.Attribute)
+                  and isinstance(c.func.value, ast.Name) and c.func.value.id == "self" and c.func.attr in emit and c is not b.call]
+        cls = "CNFLinear" if kind == "cnf" else "BaseOPB"
+        if node is None or cfg.reaches(cfg.entry, cfg.exit, avoid=[node]):
+            R.bad(F("BUILDER-PATH", fi, "%s.%s can return without stating its constraint" % (cls, name),
+                    "some path through the builder skips `%s`: for those inputs the named constraint is not added" % src(b.call)[:70], b.call))
+        elif others:
+            R.bad(F("BUILDER-PATH", fi, "%s.%s states a second constraint" % (cls, name),
+                    "besides `%s` the builder calls `%s`: for the inputs taking that branch the constraint is not the one the name states "
+                    "(the threshold comparison only covers the first)" % (src(b.call)[:60], src(others[0])[:70]), others[0]))
+        else:
+            R.ok("BUILDER-PATH", "%s.%s: one emitter call, on every path" % (cls, name), fi.key)
+    R.floor("BUILDER-PATH", n, 14)
+
+
 def op_branches(fnode, opname):
     """[(literal, If-node, body)] for tests  ``<opname> == 'lit'``  anywhere in the function"""
     out = []
